@@ -75,7 +75,14 @@ fn make_machine(cfg: &Config) -> Box<dyn Machine> {
     }
 }
 
+/// set by the C14 capacity sweep (and its replays): enables the sub-sweeps that create many
+/// short-lived managers per instruction
+pub static SWEEP_MODE: std::sync::atomic::AtomicBool = std::sync::atomic::AtomicBool::new(false);
+
 pub fn run_program(prog: &Program, o: &RunOpts) -> RunResult {
+    if o.retry_target {
+        SWEEP_MODE.store(true, std::sync::atomic::Ordering::Relaxed);
+    }
     let mut ctx = RunCtx::new(o.audits, o.log);
     ctx.io_seed = prog.config.io_seed;
     ctx.io_faults = prog.config.io_faults;
@@ -103,7 +110,14 @@ pub fn run_program(prog: &Program, o: &RunOpts) -> RunResult {
                 if let (Some(r), Some(need)) = (retry, o.retry_need) {
                     let room = (prog.config.capacity as usize).saturating_sub(r.live) >= need.delta
                         && (prog.config.term_capacity as usize).saturating_sub(r.live_terms) >= need.delta_terms;
-                    if r.live == need.live && r.live_terms == need.live_terms && room && !r.ok {
+                    // the need was learnt in the run with ample capacity: it carries over only if the
+                    // instruction reads the same things here (an earlier out-of-memory result may
+                    // have left other operands or another substitution behind)
+                    let comparable = r.inputs == need.inputs && r.live == need.live && r.live_terms == need.live_terms;
+                    if comparable {
+                        ctx.stats.bump("probe.retry_comparable");
+                    }
+                    if comparable && room && !r.ok {
                         ctx.violate(
                             &["C14"],
                             "retry-fails",
